@@ -63,7 +63,7 @@ mpn_mul_mfa_trunc_sqrt2(mp_ptr r1, mp_srcptr i1, mp_size_t n1,
    s1 = t2 + size;
    tt = s1 + size;
    
-   if (i1 != i2)
+   if (i1 != i2 || n1 != n2)
    {
       jj = TMP_BALLOC_MP_PTRS(4*(n + n*size));
       for (i = 0, ptr = (mp_ptr) jj + 4*n; i < 4*n; i++, ptr += size) 
@@ -84,7 +84,7 @@ mpn_mul_mfa_trunc_sqrt2(mp_ptr r1, mp_srcptr i1, mp_size_t n1,
    
    mpir_fft_mfa_trunc_sqrt2_outer(ii, n, w, &t1, &t2, &s1, sqrt, trunc);
    
-   if (i1 != i2)
+   if (i1 != i2 || n1 != n2)
    {
       j2 = mpir_fft_split_bits(jj, i2, n2, bits1, limbs);
       for (j = j2 ; j < 4*n; j++)
